@@ -73,7 +73,7 @@ def main(argv=None):
     from vf.engine import pool
     items = mod.plan(a.tier, seed)
     if a.only:
-        items = [it for it in items if a.only in it["scenario"] or a.only in json.dumps(it.get("params", {}))]
+        items = [it for it in items if a.only in it["scenario"] or a.only in json.dumps(it.get("params", {})) or a.only in json.dumps(it.get("bounds", {}))]
     if os.environ.get("VERIF_TWIN"):
         # vacuity self-test: every program must reach its end (reported as a violation of 'twin-end-reached')
         for it in items:
